@@ -506,6 +506,88 @@ def run_substitution_table(ctx):
             ctx.case(('subst', inp['text'], inp['term']), r == 'rejected', f'substitution-table:{r.split(":")[0]}', sample=None)
 
 
+def sub_api_call(inp):
+    """inp: {'fn', 'nargs', 'at', 'ref': expression text, 'use': condition text or None, 'route'}: a call with several
+    arguments (only the API builds those: the grammar has one-argument calls) holding a reference at argument `at`,
+    literals elsewhere, compared with 0 and combined with a use of the same reference at a disjoint type -
+    `HplPredicateExpression(call > 0 and use)`, the mirror image, or join() of the two predicates. Must raise TypeError;
+    without the use (control) the construction must succeed."""
+    from hpl.ast.expressions import And, HplBinaryOperator, HplFunctionCall, HplLiteral
+    from hpl.ast.predicates import HplPredicateExpression
+
+    kr, r = lib.outcome('expression', inp['ref'])
+    if kr != 'ast':
+        return 'reference-rejected'
+    args = tuple(r if i == inp['at'] else HplLiteral.number(i + 1) for i in range(inp['nargs']))
+
+    u = None
+    if inp['use'] is not None:
+        ku, u = lib.outcome('expression', inp['use'])
+        if ku != 'ast':
+            return 'use-not-expressible'  # e.g. a quantified variable is never an array or a message
+
+    def build():
+        pos = HplBinaryOperator('>', HplFunctionCall(inp['fn'], args), HplLiteral.number(0))
+        if inp['use'] is None:
+            return HplPredicateExpression(pos)
+        if inp['route'] == 'and':
+            return HplPredicateExpression(And(pos, u))
+        if inp['route'] == 'and-mirrored':
+            return HplPredicateExpression(And(u, pos))
+        return HplPredicateExpression(pos).join(HplPredicateExpression(u))
+
+    st, out = core.guarded(build)
+    if inp['use'] is None:
+        return 'control-accepted' if st == 'ok' else 'control-rejected'
+    if st == 'exc' and isinstance(out, TypeError):
+        return 'rejected'
+    got = f'returned {str(out)[:200]}' if st == 'ok' else f'raised {type(out).__name__}: {str(out)[:200]}'
+    raise Violation(
+        'api_call', f'{"returned" if st == "ok" else core.exc_sig(out)}:{inp["fn"]}/{inp["nargs"]}:argument-{"tail" if inp["at"] >= 2 else inp["at"]}', inp,
+        f'{inp["fn"]}(...) with {inp["nargs"]} arguments requires a number at argument {inp["at"]} ({inp["ref"]}); the same reference is used as '
+        f'{inp["use"]!r} ({inp["route"]}) and the construction {got}',
+    )  # fmt: skip
+
+
+SUBS['api_call'] = sub_api_call
+
+
+def api_call_table():
+    """Every function with an overload of two or more parameters (log, atan2, max / min / gcd with 2-5 arguments, roll /
+    pitch / yaw with 4), the reference at every argument position, every use at a type disjoint from number, three routes."""
+    for fn, overloads in sorted(typesig.FUNCTIONS.items()):
+        for params, var, _res in overloads:
+            if len(params) < 2:
+                continue
+            for nargs in ([len(params)] if var is None else [len(params), len(params) + 1, len(params) + 2, len(params) + 3]):
+                for at in range(nargs):
+                    for rname, r in TABLE_REFS[:2] + [('variable', ('var', 'v9'))]:
+                        ref = mast.render(r)
+                        yield {'fn': fn, 'nargs': nargs, 'at': at, 'ref': ref, 'use': None, 'route': None, 'reference': rname}
+                        for u in sorted(USES):
+                            if u & N:
+                                continue
+                            for route in ('and', 'and-mirrored', 'join'):
+                                yield {'fn': fn, 'nargs': nargs, 'at': at, 'ref': ref, 'use': mast.render(USES[u](r)), 'route': route, 'reference': rname}
+
+
+def run_api_call_table(ctx):
+    with ctx.timed('api-call-table'):
+        controls = {}
+        for inp in api_call_table():
+            key = (inp['fn'], inp['nargs'], inp['at'], inp['ref'])
+            try:
+                r = sub_api_call(inp)
+            except Violation as v:
+                ctx.report(v)
+                r = 'violation'
+            if inp['use'] is None:
+                controls[key] = r
+            elif controls.get(key) != 'control-accepted':
+                r = 'skipped-control-not-accepted'
+            ctx.case(('api-call', repr(sorted(inp.items(), key=str))), r == 'rejected', f'api-call-table:{r}', sample=None)
+
+
 def run_table(ctx):
     bases = {}
     with ctx.timed('table'):
@@ -574,6 +656,7 @@ def shard(ctx, shard_no, nshards, n):
     if shard_no == 0:
         run_table(ctx)
         run_substitution_table(ctx)
+        run_api_call_table(ctx)
 
     def body(inp):
         if 'skip' in inp:
